@@ -241,3 +241,18 @@ Theorem C16_ring_full_with_inflight_pop_example :
    [(0, RPush nat 10, PushOk nat); (0, RPush nat 20, PushOk nat); (2, RPop nat, PopOk nat (Some 10))], [20]).
 Proof. exact ring_full_with_inflight_pop_example. Qed.
 Print Assumptions C16_ring_full_with_inflight_pop_example.
+
+(** the ring never makes a thread spin on its own (obstruction freedom): from EVERY reachable state - whatever the
+    other threads have left half-done - a thread that is inside a push or pop and then runs alone, without
+    spurious CAS failures, returns from that call within 8 of its own steps (in particular the reload-and-retry
+    branch dif > 0 cannot repeat without another thread moving a counter).  System-wide progress under contention
+    (lock freedom) is not stated. *)
+From VB Require Import Conc.RingSolo.
+Theorem C16_ring_obstruction_free : forall (A : Type) (size : nat) (progs : nat -> list (rop A)) sched t,
+  2 <= size ->
+  let s := rs_run sched (rs_init size progs) in
+  tpc (rs_thr s t) <> PcIdle ->
+  exists n, n <= 8 /\ tpc (rs_thr (solo A n t s) t) = PcIdle /\
+            exists e, thist (rs_thr (solo A n t s) t) = thist (rs_thr s t) ++ [e].
+Proof. exact ring_obstruction_free_lemma. Qed.
+Print Assumptions C16_ring_obstruction_free.
